@@ -16,4 +16,24 @@ theorem wsub_wadd (a b n : Nat) (ha : a < M32) (hb : b < M32) (h : wsub a b + n 
 theorem wsub_self (a : Nat) : wsub a a = 0 := by
   unfold wsub; simp
 
+theorem wadd_wadd (a b c : Nat) : wadd (wadd a b) c = wadd a (b + c) := by
+  unfold wadd M32; omega
+
+theorem wadd_zero (a : Nat) (h : a < M32) : wadd a 0 = a := by
+  unfold wadd M32 at *; omega
+
+/-- Offsets below 2^32 are recoverable from sequence numbers. -/
+theorem wadd_inj (a x y : Nat) (hx : x < M32) (hy : y < M32) (h : wadd a x = wadd a y) : x = y := by
+  unfold wadd M32 at *; omega
+
+/-- `una + (ack − una) = ack` in wrapping arithmetic. -/
+theorem wadd_wsub_cancel (a b : Nat) (ha : a < M32) (hb : b < M32) : wadd b (wsub a b) = a := by
+  unfold wadd wsub M32 at *
+  split <;> omega
+
+/-- The in-flight count of two sequence numbers `iss + x ≤ iss + y` with `y < 2^32`. -/
+theorem wsub_wadd_wadd (a x y : Nat) (hxy : x ≤ y) (hy : y < M32) : wsub (wadd a y) (wadd a x) = y - x := by
+  unfold wadd wsub M32 at *
+  split <;> omega
+
 end TV.NetTcp
